@@ -1,5 +1,6 @@
 import Driver.Util
 import Torf.Spec.Create
+import Torf.Spec.CreateNames
 import Torf.Model.CreateHistory
 open Lean Torf.Paths Torf.Create
 namespace Driver.C15
@@ -14,6 +15,9 @@ namespace Driver.C15
   * `c15.history` (`cwd`, `fs`, `ops` = [{op:"path", sp: str|null} | {op:"fire", st}]) ↦ the state
                    after every operation (model `trace`) and the fresh object for that state
   * `c15.files`   (`items` = [{path:[…], size}], `cwd`, `fs`) ↦ model of `Torrent.files = …`
+  * `c15.opaque`  (`name`, `files`, `st`, `st2`, `rho` = [[name, new name]], oracle tables) ↦ the
+                   hypothesis `Spec.opaqueB` of `C15_names_opaque`, `cleanTree` of the renamed tree,
+                   and both sides of `C15_names_opaque_spec`
   * `c15.create`  (+ tables `cf` = [[s, casefold s]], `glob` = [[text, pattern, bool]],
                    `rex` = [[pattern, text, bool]]) ↦ model, spec, hyp (+ its conjuncts),
                    `listed` = model of `utils.list_files`
@@ -238,12 +242,37 @@ def history (j : Json) : Except String Json := do
     (hstJson s e).setObjVal! "fresh" fr
   return jobj [("states", jarr states)]
 
+/-- the renaming theorem on a concrete tree: `rho` is a finite table, identity elsewhere -/
+def opaqueOp (j : Json) : Except String Json := do
+  let name ← getStr j "name"
+  let fjs ← getArr j "files"
+  let files ← fjs.mapM fun f => do
+    let rel ← getStrs f "rel"
+    let size ← getNat f "size"
+    pure (⟨rel, size⟩ : FileEnt)
+  let t : Tree := ⟨name, files⟩
+  let st ← parseSettings (← j.getObjVal? "st")
+  let st2 ← parseSettings (← j.getObjVal? "st2")
+  let rj ← getArr j "rho"
+  let tbl ← rj.mapM fun e => do
+    let a ← e.getArr?
+    pure ((← (a[0]?.getD Json.null).getStr?), (← (a[1]?.getD Json.null).getStr?))
+  let ρ : String → String := fun s => ((tbl.find? (·.1 == s)).map (·.2)).getD s
+  let o ← parseOracles j
+  let lhs := Spec.created o st2 (Spec.renameTree ρ t)
+  let rhs := Spec.renameCreated ρ (Spec.created o st t)
+  return jobj [("opaque", jbool (Spec.opaqueB o o st st2 ρ t)),
+               ("cleanRenamed", jbool (Spec.cleanTree (Spec.renameTree ρ t))),
+               ("renamedSpec", createdJson lhs), ("specRenamed", createdJson rhs),
+               ("eq", jbool (lhs == rhs))]
+
 def handle (op : String) (j : Json) : Except String Json :=
   match op with
   | "c15.queries" => queries j
   | "c15.create" => create j
   | "c15.files" => filesSet j
   | "c15.history" => history j
+  | "c15.opaque" => opaqueOp j
   | _ => throw s!"unknown op {op}"
 
 end Driver.C15
